@@ -15,13 +15,17 @@ open Gallia Gallia.Proto Gallia.SessionScan
       gh: the ECU's answers to a hooked attempt (default: the same graph); hp / hq: requests of set_session_pre /
       set_session_post of the ECU class; boot: pings left unanswered after an accepted reset
     spec d=<n> skip=<csv|-> g=<edges|-> [gh=.. hk=.. hp=..] rep=<s@a.b.c;...|->   (evaluated on the effective graph `edge`)
-  edges: `a>b:p` (positive) `a>b:s` (silent) `a>b:n<dec>` (NRC), comma separated; absent = NRC 0x12
+  edges: `a>b:p` (positive) `a>b:s` (silent) `a>b:n<dec>` (NRC) `a>b:i<0|1><kind>` (a reply the client refuses; 1 = the
+         ECU switched session), comma separated; absent = NRC 0x12
+  fl: `i` = a refused reply instead of handling the request, `g` = the request is handled and the reply garbled
 -/
 
 def parseAns (s : String) : Option Ans :=
   if s == "p" then some .pos
   else if s == "s" then some .silent
   else if s.startsWith "n" then (s.drop 1).toNat?.map .nrc
+  else if s.startsWith "i1" then some (.illegal true)    -- `i<switched><kind of refused reply>`: the kind is the harness' business
+  else if s.startsWith "i0" then some (.illegal false)
   else none
 
 def parseCsv (s : String) : List Nat :=
@@ -98,7 +102,7 @@ def runScan (kv : List (String × String)) : String :=
   let ng := (negReported st).map fun (s, stack, code) => s!"{s}@{dots stack}@{code}"
   let ps := st.pos.map fun (s, stack) => s!"{s}@{dots stack}"
   let probesOk := st.reqs.all fun r => r.kind != .probe || r.cur == r.top
-  s!"exit={exitCode st} result={csv (result st)} trans={semi tr} neg={semi ng} pos={semi ps} cur={st.cur} track={if probesOk then 1 else 0} reqs={",".intercalate (st.reqs.reverse.map showReq)}"
+  s!"exit={exitCode st} end={ending st} result={csv (result st)} trans={semi tr} neg={semi ng} pos={semi ps} cur={st.cur} track={if probesOk then 1 else 0} reqs={",".intercalate (st.reqs.reverse.map showReq)}"
 
 def runSpec (kv : List (String × String)) : String :=
   let d := (field kv "d").toNat?.getD 0
@@ -133,14 +137,15 @@ def parseLocked (s : String) : List (Nat × Nat) :=
 
 def parseFaults (s : String) : List (Option Ans) :=
   if s == "-" then [] else (s.splitOn ",").map fun e =>
-    if e == "s" then some .silent else if e == "b" then some (.nrc NRC_BUSY) else none
+    if e == "s" then some .silent else if e == "b" then some (.nrc NRC_BUSY)
+    else if e == "i" then some (.illegal false) else if e == "g" then some (.illegal true) else none
 
 def showS {σ} (L : Link σ) (x : StS σ) : String :=
   let st := x.toSt L
   let tr := (transitions st).map fun (s, stack) => s!"{s}@{dots stack}"
   let ng := (negReported st).map fun (s, stack, code) => s!"{s}@{dots stack}@{code}"
   let probesOk := st.reqs.all fun r => r.kind != .probe || r.cur == r.top
-  s!"exit={exitCode st} result={csv (result st)} trans={semi tr} neg={semi ng} cur={st.cur} client={x.client} track={if probesOk then 1 else 0} reqs={",".intercalate (st.reqs.reverse.map showReq)}"
+  s!"exit={exitCode st} end={ending st} result={csv (result st)} trans={semi tr} neg={semi ng} cur={st.cur} client={x.client} track={if probesOk then 1 else 0} reqs={",".intercalate (st.reqs.reverse.map showReq)}"
 
 def runWrapped {σ} (c : CfgS) (O : Oracle σ) (e : σ) (pn : Nat) (fl : List (Option Ans)) : String :=
   let O1 := withPending O (fun s w => (O.sessionOf s + wireCode w) % (pn + 1))
